@@ -54,8 +54,8 @@ def _one(slot, item, tag):
     return dict(property=pid, kind=kind, name=name, status='caught' if ok else 'MISSED', expect=exp, keys=keys[:4])
 
 
-def run(ids, jobs=6, echo=None, tag=''):
-    items = [it for pid in ids for it in corpus(pid)]
+def run(ids, jobs=6, echo=None, tag='', only=None):
+    items = [it for pid in ids for it in corpus(pid) if only is None or only(it)]
     t0 = time.time()
     q = queue.Queue()
     for s in range(jobs):
